@@ -33,6 +33,7 @@ def main():
     ap.add_argument("--skip-tests", action="store_true")
     ap.add_argument("--keep", action="store_true")
     a = ap.parse_args()
+    a.mutdir = os.path.abspath(a.mutdir)
     patch = os.path.join(a.mutdir, "patch.diff")
     demo = os.path.join(a.mutdir, "demo.py")
     tmp = tempfile.mkdtemp(prefix="mut-eval-")
